@@ -969,6 +969,88 @@ def _wrappers(ctx) -> None:
            message="_Date.__add__: a plain sequence of day counts (ANY non-string iterable: list, tuple, range, deque) does not reach the "
                    "day arithmetic - the test is missing, limited to some sequence types, or refuses a None entry: `dates + range(3)` / "
                    "`dates + [1, None, 3]` falls through to the generic kernel and returns (date, int) pairs")
+    # ... and a VECTOR of day counts is recognised by its values too, not only by its label: a mask / slice of a mixed column keeps
+    # the label <object> (or <float>) although only ints are left in it.  Evaluated (three-valued) for `other` = a 1-D vector, not
+    # labelled int, non-empty, every element an int: the generic kernel (pairs) must not be certainly reached
+    from ..symx import flatten_conds as _fc
+
+    def resolve(t):
+        while t[0] == "ifexp":
+            r = tv(t[1])
+            if r is None:
+                return None
+            t = t[2] if r else t[3]
+        return t
+
+    def tv(c):
+        k = c[0]
+        if k == "bool":
+            rs = []
+            for x in c[2]:
+                r = tv(x)
+                rs.append(r)
+                if (c[1] == "and" and r is False) or (c[1] == "or" and r is True):
+                    break
+            if c[1] == "and":
+                return False if False in rs else (None if None in rs else True)
+            return True if True in rs else (None if None in rs else False)
+        if k == "un" and c[1] == "Not":
+            r = tv(c[2])
+            return None if r is None else not r
+        if k == "call" and c[1] == ("name", "isinstance") and len(c[2]) == 2 and resolve(c[2][0]) == OTHER:
+            names = {y[1] for y in _st(c[2][1]) if y[0] == "name"}
+            if names & {"Vector", "Iterable", "Sized", "Collection"}:
+                return True
+            return False if names <= {"str", "bytes", "bytearray", "Mapping", "int", "float", "bool", "list", "tuple", "range", "Table", "dict"} else None
+        if k == "cmp" and len(c) == 4:
+            l_, r_ = c[2], c[3]
+            sch = lambda t: t[0] == "call" and t[1][0] == "attr" and t[1][2] == "schema" and resolve(t[1][1]) == OTHER
+            dt_ = lambda t: t[0] == "attr" and t[2] == "_dtype" and resolve(t[1]) == OTHER
+            if c[1] in ("Is", "IsNot") and (sch(l_) or dt_(l_)) and r_ == ("const", "NoneType", None):
+                return c[1] == "IsNot"
+            if c[1] in ("Eq", "Is", "NotEq", "IsNot") and l_[0] == "attr" and l_[2] == "kind" and (sch(l_[1]) or dt_(l_[1])) and r_ == ("name", "int"):
+                return c[1] in ("NotEq", "IsNot")
+            nd = lambda t: t[0] == "call" and t[1][0] == "attr" and t[1][2] == "ndims" and resolve(t[1][1]) == OTHER
+            if nd(l_) and r_[0] == "const" and isinstance(r_[2], int):
+                return {"Eq": 1 == r_[2], "NotEq": 1 != r_[2], "Lt": 1 < r_[2], "LtE": 1 <= r_[2], "Gt": 1 > r_[2], "GtE": 1 >= r_[2]}.get(c[1])
+            ln = lambda t: t[0] == "call" and t[1] == ("name", "len") and len(t[2]) == 1 and resolve(t[2][0]) == OTHER
+            if ln(l_) and r_[0] == "const" and isinstance(r_[2], int):      # (a vector of 3)
+                return {"Eq": 3 == r_[2], "NotEq": 3 != r_[2], "Lt": 3 < r_[2], "LtE": 3 <= r_[2], "Gt": 3 > r_[2], "GtE": 3 >= r_[2]}.get(c[1])
+            return None
+        if k == "call" and c[1] == ("name", "len") and len(c[2]) == 1 and resolve(c[2][0]) == OTHER:
+            return True
+        if k == "call" and c[1] in (("name", "all"), ("name", "any")) and len(c[2]) == 1 and c[2][0][0] == "obj":
+            evs = [e for e in it.events if e.kind == "elem" and e.term == c[2][0] and e.loops]
+            if len(evs) == 1:
+                lp_ = it.loops[evs[0].loops[-1]]
+                src = resolve(lp_.iter) if lp_.iter is not None else None
+                if src == OTHER or (src is not None and src[0] == "attr" and src[2] == "_underlying" and resolve(src[1]) == OTHER):
+                    y = ("elem", lp_.iter, lp_.id)
+
+                    def pe(v):
+                        if v[0] == "bool":
+                            vs = [pe(x) for x in v[2]]
+                            if v[1] == "or":
+                                return True if True in vs else (None if None in vs else False)
+                            return False if False in vs else (None if None in vs else True)
+                        if v[0] == "un" and v[1] == "Not":
+                            r = pe(v[2])
+                            return None if r is None else not r
+                        if v[0] == "cmp" and v[1] in ("Is", "IsNot") and y in (v[2], v[3]) and ("const", "NoneType", None) in (v[2], v[3]):
+                            return v[1] == "IsNot"
+                        if v[0] == "call" and v[1] == ("name", "isinstance") and len(v[2]) == 2 and v[2][0] == y:
+                            names = {z[1] for z in _st(v[2][1]) if z[0] == "name"}
+                            return "int" in names
+                        return None
+                    return pe(evs[0].value)
+            return None
+        return None
+    certainly_pairs = [e for e in fallback if e.conds and all(tv(c) is pol for c, pol in _fc(e.conds))]
+    ctx.ob("e.wrappers", f, "date-add-vector-by-values", not certainly_pairs,
+           "a vector of day counts labelled <object> / <float> (a mask of a mixed column) does not certainly reach the generic kernel", f.node,
+           message="_Date.__add__: a vector operand is taken for day counts only when its dtype LABEL is int: dates + mixed[mixed.isinstance(int)] "
+                   "(an <object> vector holding only ints) certainly reaches super().__add__, where date + int is a TypeError and the fallback "
+                   "returns (date, int) pairs - while dates + list(days) adds the days")
     # a _Date object may hold datetimes (a date vector promoted in place stays a _Date): the midnight widening
     # datetime.combine(x, ...) of an ELEMENT must not be applied to an element that already is a datetime (it would drop its time)
     wprobs = []
@@ -1039,6 +1121,9 @@ def _resolve(ctx) -> None:
 
 _V, _T = "vector", "table"
 MUTANTS = [
+    dict(id="date-add-vector-by-label-only", module=_V,
+         old="				or (len(other) > 0 and all(y is None or (isinstance(y, int) and not isinstance(y, bool)) for y in other))):",
+         new="				):", rules=["e.wrappers"], desc="reverts fix 6d048d2"),
     dict(id="table-bit-lshift-inherited", module="table", old="	def bit_lshift(self, other):", new="	def _unused_bit_lshift(self, other):",
          rules=["a.dispatch"], desc="reverts fix fba6f9b"),
     dict(id="table-bit-rshift-operator-concatenates", module="table", old="other, Vector.bit_rshift, 'bit_rshift', '>>')",
